@@ -228,7 +228,13 @@ func checkFileFaults(c *mon.Case, f *fileFixture) {
 			var rerr error
 			if !c.Guard("Seek+ReadAll with k-th load failing", func() {
 				if from != 0 {
-					if _, rerr = rs.Seek(from, io.SeekStart); rerr != nil {
+					if k%2 == 0 {
+						_, rerr = rs.Seek(from, io.SeekStart)
+					} else {
+						// end-relative: needs the true length, which may itself need loads
+						_, rerr = rs.Seek(from-int64(len(f.Content)), io.SeekEnd)
+					}
+					if rerr != nil {
 						return
 					}
 				}
